@@ -267,7 +267,7 @@ ROUND12 = {
  "C01": " An old /lost+found directory unlinked from the root always restarts the check (C01.q); the directories e2fsck re-creates are extent mapped where the file system has extents (C01.r; genuine defect repaired).",
  "C05": " The rebuilt directory's mapping is extended before its blocks are written, on every path (C05.k).",
  "C09": " A new file size always clears the rest of its last block (C09.ab).",
- "C12": " tune2fs offers the undo manager before any modifying call of main (C12.p).",
+ "C12": " tune2fs offers the undo manager before any modifying call of main (C12.p); e2undo's second open of the device carries the offset of the replay (C12.q; genuine defect repaired).",
  "C13": " The MMP block is written only behind a test of EXT2_FLAG_RW (C13.k).",
 }
 for _k, _v in ROUND12.items():
